@@ -144,7 +144,7 @@ func extractSQLExpr(pos string, st *sqlx.Stmt) (sqlx.Expr, string) {
 	return nil, "unknown position"
 }
 
-var valuePool = []prim.Value{nil, int64(0), int64(1), int64(-1), int64(2), int64(7), "", "a", "A", "b"}
+var valuePool = []prim.Value{nil, int64(0), int64(1), int64(-1), int64(2), int64(7), "", "a", "A", "b", "7", "1"}
 
 // identKeys lists the distinct column references of an expression (not the
 // built-in constants), in order of appearance.
